@@ -2,8 +2,22 @@
 From Coq Require Import QArith List Bool Arith.
 From NurbsV Require Import Base.Res Base.QList Spec.KnotSpec Spec.BSpline Gen.Consts Model.KV Model.CurveM
   Model.Ops Model.CurveOps Model.CurveLS Check.Common Check.Oracle.
+From NurbsV Require Spec.BSplineExec Check.C11.
 Import ListNotations.
 Open Scope Q_scope.
+
+(* "the constrained best approximation": the residual's exact moments against the target basis are orthogonal to every
+   element of the target space that vanishes at the interpolation nodes (= lie in the row space of the collocation matrix);
+   without constraints (target degree 0) they vanish.  Same oracle as C11. *)
+Definition best_approx (before after : ocurve) (nodes : option (list Q)) : bool :=
+  forallb (fun kk =>
+    match C11.moments before after kk with
+    | Err _ => false
+    | Ok m => match nodes with
+              | None => C11.all_zero m
+              | Some zs => C11.in_rowspace (map (BSplineExec.Nrow (o_U after) (o_p after) (o_p after)) zs) m
+              end
+    end) (seq 0 (o_dim before)).
 
 Definition to_curve (c : ocurve) : res curve :=
   do k <- make (o_U c) None; Ok (mkcurve k (Some (o_P c)) (o_W c)).
@@ -68,8 +82,9 @@ Definition check_dec (orig : option ocurve) (before after : ocurve) (t : Z) (tol
                       | Ok dv => Qleb dv (2 * tl * qmaxq 1 len)
                       | Err _ => false
                       end
-         | None => if Nat.eqb (o_p after) 0 then true
+         | None => if Nat.eqb (o_p after) 0 then best_approx before after None
                    else forallb (fun z => ql_eqb (o_eval after z) (o_eval before z)) (remaining_knots after)
+                        && best_approx before after (Some (remaining_knots after))
          end
   end.
 
